@@ -20,7 +20,9 @@ structure FilterCtx (c : Ctx) (s0 : Store) (ready : List Wid) (chain rest : List
   hAR : AllReady c.own ready
   /-- `B0` = the books when the block starts -/
   hglob0 : Glob c.own (occs chain) B0
-  hcred0 : ∀ k, AMap.get s0.credits k = B0.credits k
+  /-- every credit of the books `B0` is in the store (the store may hold more: the credits of a wallet that is
+      being restored, C07) -/
+  hcred0 : ∀ k, (B0.credits k).isSome = true → (AMap.get s0.credits k).isSome = true
 
 section
 variable {c : Ctx} {s0 : Store} {ready : List Wid} {chain rest : List Block} {b : Block} {B0 : Book}
@@ -137,8 +139,7 @@ theorem filterIn_spec (F : FilterCtx c s0 ready chain rest b B0) {bm : BlockMeta
       rw [ho] at hs
       have ho' : o = u.out := by simpa using hs
       have hcr := F.hglob0.credAll oc0 h0 i.idx o hout (by rw [ho', hown]; rfl)
-      rw [← F.hcred0] at hcr
-      have := existCredit_of_get hcr
+      have := existCredit_of_get (F.hcred0 _ hcr)
       simp only [hid] at this
       rw [hex] at this
       cases this
